@@ -1248,7 +1248,7 @@ class Interp:
         return out
 
     def e_Dict(self, n, env):
-        d = {}
+        d = SymDict() if not n.keys else {}
         for k, v in zip(n.keys, n.values):
             if k is None:
                 d.update(self.ev(v, env))
@@ -1304,7 +1304,7 @@ class Interp:
     def binop(self, op, a, b):
         import operator as o
 
-        f = {ast.Add: o.add, ast.Sub: o.sub, ast.Mult: o.mul, ast.FloorDiv: o.floordiv, ast.Mod: o.mod, ast.BitAnd: o.and_, ast.BitOr: o.or_}.get(type(op))
+        f = {ast.Add: o.add, ast.Sub: o.sub, ast.Mult: o.mul, ast.FloorDiv: o.floordiv, ast.Div: o.truediv, ast.Mod: o.mod, ast.BitAnd: o.and_, ast.BitOr: o.or_}.get(type(op))
         if f is None:
             raise NotEncodable(f"binop {type(op).__name__}")
         if isinstance(a, str) and is_symstr(b) and f is o.add:
@@ -1544,21 +1544,73 @@ class SymMethod:
 
 
 class SymDict(dict):
-    """dict whose keys may contain symbolic ints: insertion compares keys by (forking) equality."""
+    """a dict that also accepts keys containing symbolic ints: such keys live in a side list and are
+    compared by (forking) equality; concrete keys behave exactly like a dict's."""
 
-    def __init__(self):
-        super().__init__()
+    def __init__(self, *a, **k):
+        super().__init__(*a, **k)
         self.items_ = []
 
+    def _sym(self, k):
+        return deep_sym(k)
+
     def __setitem__(self, k, v):
+        if not self._sym(k) and not self.items_:
+            return super().__setitem__(k, v)
         for i, (kk, vv) in enumerate(self.items_):
             if _keyeq(kk, k):
                 self.items_[i] = (kk, v)
                 return
+        if not self._sym(k) and super().__contains__(k):
+            return super().__setitem__(k, v)
+        for kk in list(super().keys()):
+            if self._sym(k) and _keyeq(kk, k):
+                return super().__setitem__(kk, v)
         self.items_.append((k, v))
 
+    def _find(self, k):
+        for kk, vv in self.items_:
+            if _keyeq(kk, k):
+                return (True, vv)
+        if not self._sym(k):
+            if super().__contains__(k):
+                return (True, super().__getitem__(k))
+            return (False, None)
+        for kk in list(super().keys()):
+            if _keyeq(kk, k):
+                return (True, super().__getitem__(kk))
+        return (False, None)
+
+    def __getitem__(self, k):
+        ok, v = self._find(k)
+        if not ok:
+            raise KeyError(k)
+        return v
+
+    def __contains__(self, k):
+        return self._find(k)[0]
+
+    def get(self, k, default=None):
+        ok, v = self._find(k)
+        return v if ok else default
+
     def values(self):
-        return [v for k, v in self.items_]
+        return list(super().values()) + [v for k, v in self.items_]
+
+    def keys(self):
+        return list(super().keys()) + [k for k, v in self.items_]
+
+    def items(self):
+        return list(super().items()) + list(self.items_)
+
+    def __iter__(self):
+        return iter(self.keys())
+
+    def __len__(self):
+        return super().__len__() + len(self.items_)
+
+    def __bool__(self):
+        return len(self) > 0
 
     def finish(self):
         return self
